@@ -179,6 +179,14 @@ class Parser:
                 if self.at(","): self.eat(",")
             self.eat(")")
             return ("ptuple", ps) if len(ps) != 1 else ps[0]
+        if v == "[":
+            self.eat("[")
+            ps = []
+            while not self.at("]"):
+                ps.append(self.pattern())
+                if self.at(","): self.eat(",")
+            self.eat("]")
+            return ("parray", ps)
         if v == "_":
             self.eat()
             return ("pwild",)
@@ -245,10 +253,20 @@ class Parser:
                     self.skip_type()
                 self.eat("=")
                 e = self.expr()
+                if self.at("else"):
+                    self.eat("else")
+                    alt = self.block()
+                    self.eat(";")
+                    stmts.append(("letelse", pat, e, alt))
+                    continue
                 self.eat(";")
                 stmts.append(("let", pat, e))
                 continue
-            e = self.expr(stmt=True)
+            if self.peek()[1] in ("if", "match", "loop", "while", "for", "unsafe", "{") and self.peek()[0] in ("ident", "punct"):
+                e = self.primary(False)          # a block-like expression in statement position is a complete statement
+                if self.at(".") or self.at("?"): e = self.postfix(e, False)
+            else:
+                e = self.expr(stmt=True)
             if self.at(";"):
                 self.eat(";")
                 stmts.append(("expr", e))
@@ -337,7 +355,8 @@ class Parser:
                 self.eat("]")
                 e = ("index", e, ix)
             elif self.at("?"):
-                raise Unsupported("? operator")
+                self.eat("?")
+                e = ("try", e)
             else:
                 return e
 
@@ -398,10 +417,12 @@ class Parser:
             arms = []
             while not self.at("}"):
                 pat = self.pattern()
-                if self.at("if"): raise Unsupported("match guard")
+                guard = None
+                if self.at("if"):
+                    self.eat("if"); guard = self.expr(nostruct=True)
                 self.eat("=>")
                 body = self.block() if self.at("{") else self.expr()      # a block arm is not followed by postfix operators
-                arms.append((pat, body))
+                arms.append((pat, body) if guard is None else (pat, body, guard))
                 if self.at(","): self.eat(",")
             self.eat("}")
             return ("match", scrut, arms)
@@ -757,6 +778,14 @@ class Sym:
                 if b is None: return None
                 out.update(b)
             return out
+        if k == "parray":
+            if v[0] != "array" or len(v[1]) != len(pat[1]): raise Unsupported("array pattern against %s" % v[0])
+            out = {}
+            for p, x in zip(pat[1], v[1]):
+                b = self.pmatch(p, x)
+                if b is None: return None
+                out.update(b)
+            return out
         if k == "ptstruct" and len(pat[1]) >= 2 and pat[1][-2] in ENUM_TYPES:
             if v[0] == "enum": return None
             if v[0] != "variant": raise Unsupported("variant pattern against %s" % v[0])
@@ -808,6 +837,15 @@ class Sym:
     def block(self, blk, env):
         env = Env(env)
         for st in blk[1]:
+            if st[0] == "letelse":               # let PAT = e else { diverges };
+                v = self.ev(st[2], env)
+                if v[0] == "optraw": v = self.split_opt(v)
+                b_ = self.pmatch(st[1], v)
+                if b_ is None:
+                    self.block(st[3], env)
+                    raise Unsupported("the else block of a let-else does not diverge")
+                env.vars.update(b_)
+                continue
             if st[0] == "let":
                 if st[1][0] == "pid" and st[2][0] == "mcall" and st[2][2] == "state_mut" and not st[2][3]:
                     root, path = self.lpath(st[2])
@@ -1006,10 +1044,11 @@ class Sym:
                     return r.value
                 finally:
                     self.cur_cls = saved
-            if f[0] == "path" and len(f[1]) == 2 and f[1][0] == "Self" and "::".join(f[1]) not in self.fns and self.find_helper is not None:
+            helper_call = f[0] == "path" and len(f[1]) == 2 and f[1][0][:1].isupper() and f[1][1][:1].islower() and f[1][1] not in ("new", "default", "from", "with_config", "zero", "one", "classes")
+            if f[0] == "path" and len(f[1]) == 2 and (f[1][0] == "Self" or helper_call) and "::".join(f[1]) not in self.fns and self.find_helper is not None:
                 h = self.find_helper(f[1][1])
                 if h is not None: self.fns["::".join(f[1])] = h
-            if f[0] == "path" and "::".join(f[1]) in self.fns and f[1][0] == "Self":
+            if f[0] == "path" and "::".join(f[1]) in self.fns and (f[1][0] == "Self" or helper_call) and not callable(self.fns["::".join(f[1])]):
                 fdef = self.fns["::".join(f[1])]
                 args = [self.ev(a, env) for a in e[2]]
                 if len(args) != len(fdef[1]): raise Unsupported("arity of the call of %s" % "::".join(f[1]))
@@ -1033,6 +1072,12 @@ class Sym:
             if f[0] == "path" and f[1][-1] in ("from", "into") and len(e[2]) == 1: return self.convert(self.ev(e[2][0], env))
             raise Unsupported("call of %s" % (f[1] if f[0] == "path" else f[0]))
         if k == "mcall": return self.mcall(e, env)
+        if k == "try":                       # `e?` on an Option: None returns None from the function, Some(v) is v
+            v = self.ev(e[1], env)
+            if v[0] == "optraw": v = self.split_opt(v)
+            if v[0] != "opt": raise Unsupported("? on a value of kind %s" % v[0])
+            if v[1] is None: raise Return(("opt", None))
+            return v[1]
         if k == "addrmut": return self.ev(e[1], env)
         if k == "matches":
             v = self.ev(e[1], env)
@@ -1056,11 +1101,17 @@ class Sym:
     def match_value(self, v, arms, env):
         if v[0] == "optraw": v = self.split_opt(v)
         place = getattr(self, "match_place", None); self.match_place = None
-        for pat, body in arms:
+        for arm in arms:
+            pat, body = arm[0], arm[1]
             b = self.pmatch(pat, v, (place[0], list(place[1])) if place else None)
             if b is not None:
                 inner = Env(env)
                 inner.vars.update(b)
+                if len(arm) > 2:                 # guard: a symbolic one is decided by path splitting
+                    g = self.ev(arm[2], inner)
+                    if g[0] != "B": raise Unsupported("match guard is not a boolean")
+                    if g[1] == ("bfalse",): continue
+                    if g[1] != ("btrue",) and not self.decide("%s = true" % coq_B(g[1]), "%s = false" % coq_B(g[1])): continue
                 return self.ev(body, inner)
         raise Unsupported("no match arm applies")
 
@@ -1089,6 +1140,7 @@ class Sym:
                 ev = self.fill(body[1], env)
                 inner = Env(env); inner.vars.update(self.pmatch(some_arm[0], ev))
                 return self.ev(some_arm[1], inner)
+        if self.while_handler is not None: return self.while_handler(self, env, e)
         raise Unsupported("loop of an unsupported shape")
 
     def fill(self, push_call, env):
@@ -1143,7 +1195,9 @@ class Sym:
         a, b = v[1], v[2]
         def arm_for(tag):
             val = ("opt", ("enum", tag)) if tag else ("opt", None)
-            for pat, body in arms:
+            for arm_ in arms:
+                pat, body = arm_[0], arm_[1]
+                if len(arm_) > 2: raise Unsupported("guard in a match on a comparison")
                 bd = self.pmatch(pat, val)
                 if bd is not None:
                     inner = Env(env); inner.vars.update(bd)
@@ -1258,10 +1312,29 @@ class Sym:
             o = self.ev(args_e[0], env)
             if o[0] != "T": raise Unsupported("partial_cmp against a non-sample")
             return ("cmp", recv[1], o[1])
+        if name == "checked_sub" and recv[0] == "Nat" and len(args_e) == 1 and as_nat(self.ev(args_e[0], env)) == "1":
+            if recv[1] == "0": return ("opt", None)
+            if recv[1].startswith("(S ") and recv[1].endswith(")"): return ("opt", ("Nat", recv[1][3:-1]))
+            raise Unsupported("checked_sub on a counter of unknown shape")
         if name == "saturating_add" and recv[0] == "N":
             o = self.ev(args_e[0], env)
             if o == ("N", ("nlit", 1)): return ("N", ("satsucc", recv[1]))
             raise Unsupported("saturating_add of something other than 1")
+        if recv[0] in ("opt", "optraw") and name in ("map_or", "map_or_else") and len(args_e) == 2:
+            if recv[0] == "optraw": recv = self.split_opt(recv)
+            if recv[1] is None:
+                d = self.ev(args_e[0], env)
+                if name == "map_or_else":
+                    if d[0] != "closure" or d[1][1]: raise Unsupported("map_or_else default is not a parameterless closure")
+                    return self.ev(d[1][2], Env(d[2]))
+                return d
+            f = self.ev(args_e[1], env)
+            if f[0] != "closure": raise Unsupported("%s with a non-closure" % name)
+            inner = Env(f[2])
+            b_ = self.pmatch(f[1][1][0], recv[1])
+            if b_ is None: raise Unsupported("closure pattern does not match")
+            inner.vars.update(b_)
+            return self.ev(f[1][2], inner)
         if recv[0] == "optraw":
             if name == "is_some": return B(("raw", "(is_some %s)" % recv[1]))
             if name == "is_none": return B(("raw", "(negb (is_some %s))" % recv[1]))
